@@ -82,6 +82,13 @@ def serCompressedXY (p : Nat × Nat) : Bytes :=
 def ExtKey.pubKeyBytes (k : ExtKey) : Bytes :=
   if !k.isPrivate then k.keyData else serCompressedXY (adaptorBaseMult k.keyData)
 
+/-- `FromPublicKey(pub, chainCode)`: a depth-0 mainnet-public key around the caller's coordinates — the point is not
+    validated and the coordinates are not reduced; the only failure is a chain code that is not 32 bytes long -/
+def fromPublicKey (x y : Nat) (cc : Bytes) : Except Unit ExtKey :=
+  if cc.length ≠ 32 then .error () else
+  .ok { version := mainnetPub, depth := 0, fingerprint := [0, 0, 0, 0], childNumber := 0,
+        keyData := serCompressedXY (x, y), chainCode := cc }
+
 def ser32 (i : Nat) : Bytes := beBytes 4 i
 
 /-- Go `copy(dst[off:], src)` -/
